@@ -255,6 +255,16 @@ def f_lang_anchor(case, r):
                            % ('matches' if l['out_accepts'] else 'does not match', l['witness'], ''.join(map(chr, l.get('anchored', []))))}]
     return []
 
+def k2_on_model(model_out, t):
+    """does the pattern printed by the MODEL also fail to find the whole test case t (PikeVM judge)?"""
+    try:
+        p = [int(x) for x in model_out.strip('[]').split(',') if x.strip()] if isinstance(model_out, str) else list(model_out)
+        rc, out, err = runner.sh([runner.GREXV, 'match'], inp=(json.dumps({'p': p, 'hs': [t]}) + '\n').encode())
+        res = [json.loads(l) for l in out.splitlines() if l.startswith('{')]
+        return not (res and res[0]['find'] and res[0]['find'][0] == [0, len(t)])
+    except Exception:
+        return True
+
 def f_find(case, r):
     v = r.get('verdicts', {})
     out = []
@@ -708,6 +718,13 @@ def run_property(pid, tier, seed):
             incons += 1
         for fl in fails_of(c, r):
             k = known_for(pid, c, r, fl, st)
+            if k == 'K2' and mm is not None and r.get('out') is not None and mm.get('out') not in (None, '!ERR') \
+                    and mm.get('out') != runner.ser_cps(r['out']):
+                # K2 is a finding about the unchanged code, which the model reproduces: when the implementation's
+                # output differs from the model's, the class only explains the failure if the model's pattern fails
+                # on the same test case too (seed C08c: a changed alternation order, failures inside K2's class)
+                if not k2_on_model(mm['out'], fl.get('t')):
+                    k = None
             if k:
                 known_counts[k] = known_counts.get(k, 0) + 1
             else:
